@@ -263,8 +263,27 @@ def leanchecker(module):
     return r.returncode == 0, r.stdout[-2000:]
 
 
+_H4MODEL_SNAP = None
+
+
 def h4model():
-    return os.path.join(LEAN, ".lake", "build", "bin", "h4model")
+    """the model driver; after snapshot_h4model() a private copy, so a concurrent `lake build` of another check cannot pull it away"""
+    return _H4MODEL_SNAP or os.path.join(LEAN, ".lake", "build", "bin", "h4model")
+
+
+def snapshot_h4model():
+    global _H4MODEL_SNAP
+    src = os.path.join(LEAN, ".lake", "build", "bin", "h4model")
+    dst = os.path.join(WORK, "tmp", "h4model-%d" % os.getpid())
+    os.makedirs(os.path.dirname(dst), exist_ok=True)
+    with lock("lake"):
+        if not os.path.exists(src):
+            return None
+        shutil.copy2(src, dst)
+    _H4MODEL_SNAP = dst
+    import atexit
+    atexit.register(lambda: os.path.exists(dst) and os.unlink(dst))
+    return dst
 
 
 # --------------------------------------------------------------------------- known findings
